@@ -12,8 +12,21 @@ for f in ("/tmp/confirm.log", "/tmp/confirm2.log", "/tmp/confirm3.log"):
             r = json.loads(line)
             conf[r["seed"].replace("_", "-")] = r
 head = subprocess.run(["git", "-C", "/repo", "log", "--format=%h", "-1"], capture_output=True, text=True).stdout.strip()
+# seeded changes that stopped being defects because a later fix: commit made the code robust against them
+OBSOLETE = {
+    "C11-D": "obsolete since fix a27f549 (F51): the outer query now labels subquery columns with their own names, so the order in which collision suffixes are assigned can no longer leak into the exported names; before that commit the change was confirmed (demo failed, 64 tests passed) and caught by C11 (`c11.subquery_hidden_namesake_filter`, matrix run 2)",
+}
 rows = []
 for key in sorted(matrix):
+    if key in OBSOLETE:
+        p_, x_ = key.split("-")
+        dst = os.path.join(DST, key)
+        os.makedirs(dst, exist_ok=True)
+        for f in ("patch.diff", "demo.py"):
+            shutil.copy(os.path.join(SRC, p_, x_, f), os.path.join(dst, f))
+        meta = json.load(open(os.path.join(SRC, p_, x_, "meta.json")))
+        json.dump({"property": p_, "what_it_breaks": meta.get("what_it_breaks"), "needs_to_manifest": meta.get("needs_to_manifest"), "files_touched": meta.get("files_touched"), "status": OBSOLETE[key], "caught_by": [], "not_caught_by": [], "checks_run": {}}, open(os.path.join(dst, "meta.json"), "w"), indent=1)
+        continue
     p, x = key.split("-")
     src = os.path.join(SRC, p, x)
     c = conf.get(key)
